@@ -2718,6 +2718,10 @@ func runC13(r *Rng, tier string, n int) {
 	//         harness knows: afterwards the process holds no new socket, nothing listens there, and
 	//         the corrected start of the same Server value on the SAME address serves a life
 	failingStartsAtKnownAddresses(r)
+	// ---- Q. input that reaches no handler followed by several requests in flight together (workers
+	//         parked before the body is decoded / inside the handler / all readable at once): every
+	//         worker gives the handler the request of ITS datagram, every peer gets ITS reply
+	inFlightAfterNoHandlerInput(r, thorough)
 	// ---- K. every way a serve call ends by itself: a non-temporary Accept / ReadFrom error, or the
 	//         listener / PacketConn closed from outside, at every point of a life (idle, handler in
 	//         flight, after a served request, after temporary errors of both flavours, after a client
